@@ -95,12 +95,16 @@ IRegsRemoveEmpty ==
   /\ com' = {e \in com : e.alive # {}}
   /\ RegAgrees(Ev.com, com') /\ RegAgrees(Ev.unc, unc)
   /\ metaCom' = com'                      \* save_metas follows: this is what a rollback restores
-  /\ UNCHANGED <<dq, unc, merges, meta, fin, commitOp, reconcile>> /\ Frame
+  /\ meta' = [meta EXCEPT !.opstamp = commitOp]
+  /\ UNCHANGED <<dq, unc, merges, fin, commitOp, reconcile>> /\ Frame
 
+\* a merge of COMMITTED segments must use the opstamp of the last commit as its target (IndexCore!
+\* PolicyMergeCommitted): with a later target it would apply deletes that are not committed yet
 IMergeStart ==
   /\ Ev.e = "merge_start"
   /\ LET S == {e \in unc \cup com : e.sid \in SeqToSet(Ev.segs)} IN
      /\ Cardinality(S) = Len(Ev.segs)
+     /\ (S \subseteq com => Ev.target = meta.opstamp)
      /\ merges' = merges \cup {[order |-> Ev.segs, ents |-> S, target |-> Ev.target]}
   /\ UNCHANGED <<dq, unc, com, meta, fin, commitOp, reconcile, metaCom>> /\ Frame
 
